@@ -49,6 +49,7 @@ type Exec struct {
 	D   *Decls
 	cfg Config
 
+	refRoot    map[string]string // reference term -> its allocation root (see setRoot)
 	fresh      int
 	typeTags   map[string]int
 	tagTypes   map[int]types.Type
